@@ -533,8 +533,15 @@ pub fn parse_condition(condition: &str) -> Result<crate::ast::Condition, Compile
         "true" => Ok(Condition::Bool(true)),
         "false" => Ok(Condition::Bool(false)),
         _ => {
+            // `name()` alone is a call of a user function; anything else that merely
+            // ends in `()` (`1 > CHOICE_COUNT()`, `a && f()`) is an expression.
             if let Some(name) = condition.strip_suffix("()") {
-                return Ok(Condition::FunctionCall(name.trim().to_owned()));
+                let name = name.trim();
+                let is_identifier =
+                    !name.is_empty() && name.chars().all(|c| c.is_alphanumeric() || c == '_');
+                if is_identifier && !matches!(name, "CHOICE_COUNT" | "TURNS") {
+                    return Ok(Condition::FunctionCall(name.to_owned()));
+                }
             }
 
             Ok(Condition::Expression(parse_expression(condition)?))
